@@ -110,3 +110,151 @@ def random_transfer(seed, idx, fam="xfer", lossy=True, sizes=(1, 200000), allow_
                     rand_a=[gen(), gen()], rand_b=[gen(), gen()],
                     info={"lossy": lossy, "link": link, "rx": rx, "tx": [tx_init, tx_max], "nagle": nagle,
                           "class": "fair-lossy" if lossy else "loss-free"})
+
+# ---------------------------------------------------------------------------------------------
+# D-peer: one real endpoint (socket A) against the scripted raw peer P
+P_ADDR = "127.0.0.1:9"
+P6_ADDR = "[::1]:9"
+
+def peer(intent, **kw):
+    d = {"op": "peer", "name": "P", "intent": intent}
+    d.update(kw)
+    return d
+
+def sleep(us):
+    return {"op": "sleep", "us": int(us)}
+
+def peer_script(name, seed, steps, *, opts=None, lat=1000, v6=False, rand=None, info=None, net=None, mute=None):
+    aa, pa = (A6_ADDR, P6_ADDR) if v6 else (A_ADDR, P_ADDR)
+    socks = [sock("A", aa, rand=rand, **(opts or {})), sock("P", pa, raw=True)]
+    n = {"latency_us": lat}
+    n.update(net or {})
+    inf = {"family": name.split("/")[0], "driver": "peer"}
+    inf.update(info or {})
+    return script(name, seed, socks, steps, net=n, info=inf, mute=mute)
+
+def peer_open_active(lat=1000, peer_isn=1000, wnd=1 << 20):
+    """The library connects to the peer."""
+    return [{"op": "connect", "sock": "A", "to": "P", "ep": "a"},
+            sleep(lat + 10),
+            peer("synack", seq=peer_isn, wnd=wnd),
+            {"op": "wait", "what": "connect", "timeout_us": 1 * SEC}]
+
+def peer_open_passive(lat=1000, cid=300, peer_isn=2000, wnd=1 << 20, establish=True):
+    """The peer connects to the library (SYN), the library accepts; optionally the peer's first ACK."""
+    st = [{"op": "accept", "sock": "A", "ep": "a"},
+          peer("syn", cid=cid, seq=peer_isn, to="A"),
+          {"op": "wait", "what": "accept", "timeout_us": 1 * SEC},
+          sleep(lat + 10)]
+    if establish:
+        st += [peer("ack", wnd=wnd), sleep(lat + 10)]
+    return st
+
+# ------------------------------------------------------------------ D-peer families
+LINKS = {148: 100, 300: 252, 576: 528, 1500: 528}   # link MTU -> initial MSS (IPv4)
+
+def rounds_acks(rng, n_rounds, lat, mss, allow_silence=True, allow_zero=True):
+    """A random ACK/window history for a sending endpoint."""
+    st = []
+    wnds = [1 << 20, 1 << 20, 5 * mss, 2 * mss, mss, mss - 1, 1]
+    if allow_zero:
+        wnds += [0, 0]
+    for _ in range(n_rounds):
+        dt = rng.choice([lat + 10, lat + 10, 3000, 20000, 60000] + ([250000, 450000, 1000000] if allow_silence else []))
+        st.append(sleep(dt))
+        k = rng.random()
+        w = rng.choice(wnds)
+        if k < 0.45:
+            st.append(peer("ack", wnd=w))
+        elif k < 0.55:
+            st.append(peer("ack", wnd=w, n=rng.choice([2, 3, 4]), nosack=True))
+        elif k < 0.70:
+            # the peer reports (selectively) exactly what it holds; holes come from the network rules
+            st.append(peer("ack", wnd=max(w, mss), n=rng.choice([1, 1, 3])))
+        elif k < 0.78:
+            st.append(peer("ack", wnd=w, rel=rng.choice([-1, -2, -5])))
+        elif k < 0.86:
+            st.append(peer("ack", wnd=w, type=0 if rng.random() < 0.0 else 2))
+        else:
+            pass  # silence this round
+    return st
+
+def peer_send(seed, idx, fam="peer_send"):
+    """The library sends; the scripted peer produces an ACK/window history."""
+    rng = random.Random(seed * 1000003 + idx * 7 + 11)
+    link = rng.choice(list(LINKS))
+    mss = LINKS[link]
+    lat = rng.choice([500, 1000, 5000])
+    nagle = rng.random() < 0.6
+    tx_init = rng.choice([64, 1024, 4096, 32768])
+    tx_max = rng.choice([tx_init, tx_init * 4, 1 << 20])
+    opts = dict(link_mtu=link, nagle=nagle, tx_init=tx_init, tx_max=tx_max, max_retx=rng.choice([2, 3, 5]))
+    active = rng.random() < 0.5
+    pw = rng.choice([1 << 20, 10 * mss, 2 * mss])
+    st = peer_open_active(lat, peer_isn=rng.choice([1000, 65530]), wnd=pw) if active else \
+        peer_open_passive(lat, cid=rng.choice([300, 65535]), peer_isn=rng.choice([2000, 65534]), wnd=pw)
+    st.append({"op": "read", "ep": "a"})
+    # holes: the network loses some first (and a few second) transmissions of data segments
+    for j in sorted(rng.sample(range(0, 40), rng.choice([0, 1, 3, 6]))):
+        st.append(rule(**{"from": "A", "type": "data", "seq_idx": j, "nth": 1, "act": "drop"}))
+        if rng.random() < 0.3:
+            st.append(rule(**{"from": "A", "type": "data", "seq_idx": j, "nth": 2, "act": "drop"}))
+    for _ in range(rng.choice([1, 2, 4])):
+        n = rng.choice([1, 10, mss - 1, mss, mss + 1, 3 * mss, 10 * mss, 40 * mss])
+        st.append({"op": "write", "ep": "a", "n": n, "chunk": rng.choice([1, 50, mss, 65536]) if n <= 3 * mss else 65536})
+        st += rounds_acks(rng, rng.choice([2, 5, 10]), lat, mss)
+    # drain: let everything be acknowledged if possible
+    for _ in range(12):
+        st += [sleep(lat + 10), peer("ack", wnd=1 << 20)]
+    end = rng.choice(["shutdown", "drop", "peerfin", "silent", "reset"])
+    if end == "shutdown":
+        st += [{"op": "shutdown", "ep": "a"}, sleep(lat + 10), peer("ack"), peer("fin"), sleep(lat + 10), peer("ack")]
+    elif end == "drop":
+        st += [{"op": "drop", "ep": "a"}, sleep(lat + 10), peer("ack"), peer("fin"), sleep(lat + 10), peer("ack")]
+    elif end == "peerfin":
+        st += [peer("fin"), sleep(lat + 10), peer("ack"), sleep(lat + 10), peer("ack")]
+    elif end == "reset":
+        st += [peer("reset")]
+    st += [sleep(4 * SEC), {"op": "drop", "ep": "a"}, sleep(14 * SEC)]
+    return peer_script(f"{fam}/{idx}", seed * 31 + idx, st, opts=opts, lat=lat,
+                       rand=[rng.randrange(65536), rng.choice([1, 65534, rng.randrange(65536)]), rng.randrange(65536)],
+                       info={"mss": mss, "nagle": nagle, "end": end, "tx": [tx_init, tx_max]})
+
+def peer_recv(seed, idx, fam="peer_recv"):
+    """The library receives; the scripted peer sends data in every order and timing."""
+    rng = random.Random(seed * 1000003 + idx * 13 + 5)
+    link = rng.choice([576, 1500, 148])
+    mss = LINKS[link]
+    lat = rng.choice([0, 500, 1000])
+    rx = rng.choice([2 * mss, 3 * mss, 8 * mss, 64 * mss, 1 << 20])
+    opts = dict(link_mtu=link, rx_buf=rx)
+    st = peer_open_passive(lat, cid=rng.choice([300, 65535, 0]), peer_isn=rng.choice([2000, 65533, 65535]), establish=False) \
+        if rng.random() < 0.6 else peer_open_active(lat, peer_isn=rng.choice([1000, 65532]))
+    reader = rng.choice(["greedy", "greedy", "slow", "stopped", "dropped"])
+    if reader == "greedy":
+        st.append({"op": "read", "ep": "a"})
+    elif reader == "dropped":
+        st.append({"op": "drop_r", "ep": "a"})
+    plen = rng.choice([1, 10, mss // 2, mss, mss, mss])
+    for _ in range(rng.choice([5, 10, 25])):
+        k = rng.random()
+        if k < 0.55:
+            st.append(peer("data", len=plen))
+        elif k < 0.70:
+            st.append(peer("data", len=plen, ahead=rng.choice([1, 2, 3, 10])))
+        elif k < 0.80:
+            st.append(peer("fill", len=plen, count=rng.choice([1, 2, 3])))
+        elif k < 0.90:
+            st.append(peer("data", len=plen, again=rng.randrange(0, 6)))
+        else:
+            st.append(peer("data", len=plen, ahead=rng.choice([70, 200, 5000])))
+        st.append(sleep(rng.choice([0, 0, 100, 1000, 20000, 39000, 41000, 100000]) + (lat + 1 if rng.random() < 0.5 else 0)))
+        if reader == "slow" and rng.random() < 0.4:
+            st.append({"op": "read", "ep": "a", "n": rng.choice([1, plen, 3 * plen]), "chunk": rng.choice([1, plen, 65536])})
+    st += [peer("fill", len=plen, count=4), sleep(100000)]
+    if reader in ("slow", "stopped"):
+        st.append({"op": "read", "ep": "a"})
+    st += [sleep(100000), peer("fin"), sleep(300000), peer("ack"), sleep(2 * SEC), {"op": "drop", "ep": "a"}, sleep(14 * SEC)]
+    return peer_script(f"{fam}/{idx}", seed * 37 + idx, st, opts=opts, lat=lat,
+                       rand=[rng.randrange(65536), rng.choice([1, 65534, rng.randrange(65536)]), rng.randrange(65536)],
+                       info={"mss": mss, "rx": rx, "reader": reader, "plen": plen})
